@@ -29,13 +29,13 @@ def hasNaN (θ : Params) : Bool := θ.any (fun leaf => leaf.any (fun v => v.isNo
     observation inputs and values), each flattened -/
 structure Batch where
   cols : List (List Rat)
-deriving Repr, BEq, Inhabited
+deriving Repr, DecidableEq, Inhabited
 
 /-- what can be read off an optax state of the exact optimizer family -/
 structure OptObs where
   count : Option Nat          -- step counter(s), when the chain has one
   trace : Option Params       -- momentum trace, when momentum is used
-deriving Repr, BEq, Inhabited
+deriving Repr, DecidableEq, Inhabited
 
 /-- The trace of the textbook loop on a program, for `n` iterations (it does not stop on NaN:
     NaN simply propagates through the arithmetic). -/
